@@ -504,7 +504,8 @@ impl<'ast> Visit<'ast> for EventVisitor {
     }
     fn visit_expr_return(&mut self, r: &'ast syn::ExprReturn) {
         if self.in_target {
-            let what = r.expr.as_ref().map(|e| toks(e)).unwrap_or_default();
+            let what: String = r.expr.as_ref().map(|e| toks(e)).unwrap_or_default();
+            let what: String = what.chars().filter(|c| !c.is_whitespace()).take(28).collect();
             self.push(r.return_token.span, format!("return {what}"));
         }
         syn::visit::visit_expr_return(self, r);
@@ -522,8 +523,13 @@ impl<'ast> Visit<'ast> for EventVisitor {
                     syn::Expr::Path(p) => p.path.segments[0].ident.span(),
                     _ => proc_macro2::Span::call_site(),
                 };
-                let detail = if last == "checkout" || last == "rollback" {
-                    format!("{}({})", last, first_args.join(", "))
+                let detail = if last == "checkout" {
+                    // the two tree arguments decide what is checked out
+                    let n = first_args.len();
+                    let tail = if n >= 2 { first_args[n - 2..].join("->") } else { first_args.join(",") };
+                    format!("checkout({tail})")
+                } else if last == "rollback" {
+                    format!("rollback({})", first_args.first().cloned().unwrap_or_default())
                 } else {
                     f.replace(' ', "")
                 };
@@ -562,11 +568,32 @@ impl<'ast> Visit<'ast> for EventVisitor {
             if watch.contains(&m.as_str()) {
                 let args: Vec<String> = mc.args.iter().map(toks).collect();
                 let recv = toks(&mc.receiver);
-                let recv_short: String = recv.chars().take(40).collect();
-                self.push(
-                    mc.method.span(),
-                    format!("{}.{}({})", recv_short, m, args.join(", ")),
-                );
+                let all_args = args.join(", ");
+                // coarse, rename-tolerant event text: method name plus a classification of
+                // the arguments that matter for the protocol
+                let detail = match m.as_str() {
+                    "find_reference" => {
+                        if all_args.contains("stack_refname") {
+                            "state-ref".to_string()
+                        } else if all_args.contains("branch_ref") {
+                            "branch-ref".to_string()
+                        } else {
+                            all_args.clone()
+                        }
+                    }
+                    "insert" | "shift_remove" | "drain" | "store" | "load" => {
+                        let r: String = recv.chars().filter(|c| !c.is_whitespace()).take(24).collect();
+                        let a: String = all_args.chars().filter(|c| !c.is_whitespace()).take(60).collect();
+                        format!("{r}<-{a}")
+                    }
+                    "commit" | "commit_with_options" | "reference" | "advance_head" | "make_tree" => {
+                        let a: String = all_args.chars().filter(|c| !c.is_whitespace()).take(70).collect();
+                        a
+                    }
+                    "read_tree_checkout" => all_args.replace(' ', ""),
+                    _ => String::new(),
+                };
+                self.push(mc.method.span(), format!("{m}({detail})"));
             }
             if m == "push" && toks(&mc.receiver) == "ref_edits" {
                 // classify by the `name:` field and the PreviousValue constructors used
@@ -622,6 +649,34 @@ impl<'ast> Visit<'ast> for EventVisitor {
     }
     fn visit_expr_try(&mut self, t: &'ast syn::ExprTry) {
         syn::visit::visit_expr_try(self, t);
+    }
+    fn visit_expr_struct(&mut self, st: &'ast syn::ExprStruct) {
+        if self.in_target {
+            let segs: Vec<String> = st.path.segments.iter().map(|s| s.ident.to_string()).collect();
+            let n = segs.len();
+            if n >= 2 && segs[n - 2] == "Change" && (segs[n - 1] == "Update" || segs[n - 1] == "Delete") {
+                let mut expected = String::from("?");
+                for f in &st.fields {
+                    if let syn::Member::Named(id) = &f.member {
+                        if id == "expected" {
+                            let t = toks(&f.expr);
+                            let mut ks = Vec::new();
+                            for key in ["ExistingMustMatch", "MustNotExist", "MustExistAndMatch", "MustExist", "Any"] {
+                                if t.contains(&format!("PreviousValue :: {key}")) {
+                                    ks.push(key);
+                                }
+                            }
+                            expected = ks.join("|");
+                        }
+                    }
+                }
+                self.push(
+                    st.path.segments[0].ident.span(),
+                    format!("Change::{} expected={}", segs[n - 1], expected),
+                );
+            }
+        }
+        syn::visit::visit_expr_struct(self, st);
     }
 }
 
